@@ -11,10 +11,19 @@ import random
 import re
 import time
 
-from common import ROOT, WORK, REPLAYS, ensure_dir, log, run, seed
+from common import ROOT, WORK, REPLAYS, REPO, ALT, ensure_dir, log, run, seed
 
 KANI_DIR = os.path.join(ROOT, "kani")
-BASE_TARGET = os.path.join(WORK, "kani-target")      # pre-built by setup.sh (dependencies only)
+if ALT:
+    # copy of the harness crate whose path dependencies point at the alternate checkout
+    import shutil
+    _alt = os.path.join(ensure_dir(WORK), "kani")
+    shutil.rmtree(_alt, ignore_errors=True)
+    shutil.copytree(KANI_DIR, _alt, ignore=shutil.ignore_patterns("target"))
+    _toml = open(os.path.join(_alt, "Cargo.toml")).read().replace('"/repo/', '"' + REPO.rstrip("/") + "/")
+    open(os.path.join(_alt, "Cargo.toml"), "w").write(_toml)
+    KANI_DIR = _alt
+BASE_TARGET = os.path.join(ROOT, ".work", "kani-target")      # pre-built by setup.sh (dependencies only)
 PLAYBACK_TARGET = os.path.join(WORK, "kani-playback-target")
 
 
